@@ -10,12 +10,37 @@ longer discharges the site.
 import json, os, re, sys
 sys.path.insert(0, os.path.dirname(os.path.dirname(os.path.abspath(__file__))))
 from wfstatic import build, ir, panics
-from wfstatic.rules import c05, c19, c26
+from wfstatic.rules import c05, c19, c26, c27
 
 R_SLICE_POS = "SliceReader invariant pos <= source.len(): pos is advanced only after check_eor succeeded"
 CHECK_EOR = {"kind": "ok-edge-of", "callee_name": "check_eor"}
 
+RA_ = "winter_utils::serde::byte_reader::ReadAdapter::<'a>::"
+
 SPEC = [
+    # ---- ReadAdapter (C27) -------------------------------------------------------------------
+    (r"ReadAdapter<'_> as .*ByteReader>::check_eor$", r"Overflow:Add", "sum of two byte-slice lengths (each at most isize::MAX)"),
+    (r"ReadAdapter<'_> as .*ByteReader>::peek_u8::\{closure", r"BoundsCheck", "applied by map() to the Ok payload of non_empty_reader_buffer(), which returns Ok only for a non-empty buffer",
+     {"kind": "pred-guard", "func": RA_ + "non_empty_reader_buffer", "pred": "is_empty", "count": 1}),
+    (r"ReadAdapter<'_> as .*ByteReader>::read_slice$", r"Overflow:Add|call:index", "buffer_at_least(len)? returned Ok: buf.len() - pos >= len, so pos + len <= buf.len() <= isize::MAX",
+     [{"kind": "ok-edge-of", "callee_name": "buffer_at_least"}, {"kind": "fact", "name": "c27.fill_post"}]),
+    (r"ReadAdapter::<'a>::has_remaining_capacity$", r"Overflow:Sub", "buffer() is a suffix of buf, so its length is at most buf.len() <= buf.capacity()"),
+    (r"ReadAdapter::<'a>::(non_empty_reader_buffer|reader_buffer)$", r"call:borrow", "the reader's RefCell is borrowed only in these two private helpers; no Ref escapes a method and no second borrow is reachable while one is alive",
+     {"kind": "fact", "name": "c27.no_ref_conflict"}),
+    (r"ReadAdapter::<'a>::pop$", r"Overflow:Add", "taken only when non_empty_buffer().map(..) is Some: the unread part is non-empty, so pos < buf.len()",
+     {"kind": "ok-edge-of", "callee_name": "map"}),
+    (r"ReadAdapter::<'a>::pop::\{closure", r"BoundsCheck", "applied by map() to a payload that is a non-empty slice (non_empty_buffer filters empty slices; non_empty_reader_buffer_mut returns Ok only when !buf.is_empty())",
+     {"kind": "pred-guard", "func": RA_ + "non_empty_reader_buffer_mut", "pred": "is_empty", "count": 1}),
+    (r"ReadAdapter::<'a>::read_exact$", r"Overflow:Add#\.pos,N,self#0", "arm `n if n >= N`: buf.len() - pos = n >= N",
+     {"kind": "dom-guard", "lhs": "len", "rel": "Ge", "rhs": "N"}),
+    (r"ReadAdapter::<'a>::read_exact$", r"Overflow:Add#buf,len\(\),m,n,reader_buf", "sum of two byte-slice lengths (each at most isize::MAX)"),
+    (r"ReadAdapter::<'a>::read_exact$", r"diverge:panic", "non_empty_reader_buffer_mut()? returned Ok on this path, so the reader buffer is non-empty and nothing has consumed it since",
+     [{"kind": "ok-edge-of", "callee_name": "non_empty_reader_buffer_mut"}, {"kind": "pred-guard", "func": RA_ + "non_empty_reader_buffer_mut", "pred": "is_empty", "count": 1}]),
+    (r"ReadAdapter::<'a>::read_exact$", r"Overflow:Sub#N,buf,len\(\),n", "reached only when the arm `n if n >= N` did not match: n < N",
+     {"kind": "dom-guard", "lhs": "len", "rel": "Lt", "rhs": "N"}),
+    (r"ReadAdapter::<'a>::read_exact$", r"Overflow:Add#\.pos,buf,len\(\),n,self", "n = buffer().len() = buf.len() - pos, so pos + n = buf.len()"),
+    (r"ReadAdapter::<'a>::read_exact$", r"diverge:assert|Overflow:Add#\.pos,N,self#1", "buffer_at_least(N)? returned Ok: buf.len() - pos >= N",
+     [{"kind": "ok-edge-of", "callee_name": "buffer_at_least"}, {"kind": "fact", "name": "c27.fill_post"}]),
     # ---- winter_utils::serde --------------------------------------------------------------
     (r"SliceReader<'_> as .*ByteReader>::read_u8$", r"BoundsCheck|Overflow:Add", "check_eor(1)? succeeded: pos + 1 <= source.len()", CHECK_EOR),
     (r"SliceReader<'_> as .*ByteReader>::peek_u8$", r"BoundsCheck", "check_eor(1)? succeeded: pos < source.len()", CHECK_EOR),
@@ -141,7 +166,7 @@ def main():
     p = ir.Program(build.build("default"))
     out = {}
     unmatched = []
-    for mod, entries in ((c05, None), (c19, None), (c26, None)):
+    for mod, entries in ((c05, None), (c19, None), (c26, None), (c27, None)):
         es = mod.entry_points(p)
         recs, keys, an = panics.inventory(p, es, mod.make_stop(p), {})
         for r in recs:
@@ -155,10 +180,12 @@ def main():
             if hit:
                 e = {"key": r["key"], "reason": hit[2]}
                 if len(hit) > 3 and hit[3]:
-                    req = dict(hit[3])
-                    if req.get("func") == "@self":
-                        req["func"] = r["func"]
-                    e["requires"] = req
+                    def fix(q):
+                        q = dict(q)
+                        if q.get("func") == "@self":
+                            q["func"] = r["func"]
+                        return q
+                    e["requires"] = [fix(q) for q in hit[3]] if isinstance(hit[3], list) else fix(hit[3])
                 out[r["key"]] = e
             else:
                 unmatched.append((mod.__name__.split(".")[-1], r["key"], r["how"]))
